@@ -297,6 +297,14 @@ def check(repo, tier="quick"):
     rule_c(repo, res, md, me)
     rule_d(repo, res, md, me)
     rule_e(repo, res, me)
+    # ... and the padding is taken off again by helpers that cut at the requested index in the *matching* dimension (C09.g)
+    from . import c09 as _c09
+    from ..report import Result as _R, Ob as _Ob
+
+    _sub = _R("C09")
+    _c09.rule_g(repo, _sub)
+    for _o in _sub.obs:
+        res._add(_Ob("C11.e", "%s/%s" % (_o.rule, _o.key), _o.where, _o.status, _o.detail, _o.by, _o.path))
     from .. import globals_state, lints
 
     globals_state.rule(repo, res, "C11.f", ["pseudocode.picture_encoding", "pseudocode.picture_decoding", "pseudocode.arrays", "pseudocode.vc2_math"], what="the coefficients computed for one picture")
